@@ -167,6 +167,24 @@ func (orderedMap *Map[K, V]) Values() []V {
 // the unexported fields of a struct unless it is told what to do with them.
 var compareUnexportedFields = cmp.Exporter(func(reflect.Type) bool { return true })
 
+// contentComparable is what a map held by value offers: Equal has a pointer
+// receiver, which go-cmp does not find on a value.
+type contentComparable interface {
+	equalContent(other any) bool
+}
+
+func (orderedMap Map[K, V]) equalContent(other any) bool {
+	otherMap, ok := other.(Map[K, V])
+
+	return ok && (&orderedMap).Equal(&otherMap)
+}
+
+// compareMapsByContent makes the maps found by value among the compared values
+// follow Equal too, instead of being compared field by field.
+var compareMapsByContent = cmp.Comparer(func(x, y contentComparable) bool {
+	return x.equalContent(y)
+})
+
 // Equal tells whether both maps hold the same keys, in the same order, with
 // equal values. The way the maps were built does not matter: a map emptied by
 // Remove is equal to a new one.
@@ -184,7 +202,7 @@ func (orderedMap *Map[K, V]) Equal(other *Map[K, V]) bool {
 			return false
 		}
 
-		if !cmp.Equal(orderedMap.records[key], other.records[key], compareUnexportedFields) {
+		if !cmp.Equal(orderedMap.records[key], other.records[key], compareUnexportedFields, compareMapsByContent) {
 			return false
 		}
 	}
